@@ -126,6 +126,11 @@ func init() {
 		if bits == 0 {
 			bits = 64
 		}
+		if d, ok := e.decimalOrigin(s.B); ok && base == 10 && bits == 64 && d.signed && d.val.W == 64 {
+			// the whole string is the %d rendering of d.val: parse(print(v)) = v (strconv/fmt contract)
+			e.rep.Stubs["strconv.ParseInt applied to a string produced by the %d model of the same run: result taken as the rendered integer (parse(print(v)) = v)"]++
+			return Tuple{d.val, Iface{}}
+		}
 		if len(s.B) == 0 {
 			return Tuple{tb.Const(64, 0), e.errorValue(e.strConst("strconv.ParseInt: parsing \"\": invalid syntax"))}
 		}
